@@ -48,7 +48,7 @@ def analyse(pid, repo, only_rules=None):
     return result
 
 
-def make_copy(repo, edits):
+def make_copy(repo, edits, patch=None):
     """Scratch copy of the analysed files with `edits` applied.
 
     `edits` = list of (relpath, old, new).  Returns (dir, problem).
@@ -59,6 +59,13 @@ def make_copy(repo, edits):
         src = os.path.join(repo, rel)
         if os.path.exists(src):
             shutil.copy(src, os.path.join(d, rel))
+    if patch:
+        import subprocess
+        r = subprocess.run(['patch', '-p1', '-s', '-i', patch], cwd=d,
+                           stdout=subprocess.PIPE, stderr=subprocess.STDOUT,
+                           text=True)
+        if r.returncode:
+            return d, f'patch does not apply: {r.stdout[:120]}'
     for rel, old, new in edits:
         p = os.path.join(d, rel)
         with open(p, encoding='utf8') as f:
@@ -81,7 +88,8 @@ def run_variant(args):
     pid, repo, variant, base_keys = args
     d = None
     try:
-        d, problem = make_copy(repo, variant['edits'])
+        d, problem = make_copy(repo, variant['edits'],
+                               variant.get('patch'))
         if problem:
             return dict(id=variant['id'], status='stale', detail=problem)
         try:
@@ -120,9 +128,32 @@ def run_variant(args):
             shutil.rmtree(d, ignore_errors=True)
 
 
+def seeded_variants(pid):
+    """Confirmed changes written by independent sub-agents
+    (/verif/seeded/*): the check of the property they aim at must report
+    something on the patched tree."""
+    import glob
+    import json
+    out = []
+    root = os.path.join(report.HERE, 'seeded')
+    for d in sorted(glob.glob(os.path.join(root, '*'))):
+        mp = os.path.join(d, 'meta.json')
+        pp = os.path.join(d, 'patch.diff')
+        if not (os.path.exists(mp) and os.path.exists(pp)):
+            continue
+        meta = json.load(open(mp))
+        if meta.get('property') != pid:
+            continue
+        out.append(dict(id='seeded/' + os.path.basename(d), props=[pid],
+                        kind='breaking', edits=[], patch=pp, expect='',
+                        note=meta.get('needs', '')))
+    return out
+
+
 def run(pid, repo, verbose=True, jobs=16):
     from . import variants
     vs = [v for v in variants.VARIANTS if pid in v['props']]
+    vs = vs + seeded_variants(pid)
     if not vs:
         print(f'selftest {pid}: no variants')
         return True, dict(variants=0)
@@ -141,11 +172,13 @@ def run(pid, repo, verbose=True, jobs=16):
         if verbose and r['status'] != 'ok':
             print(f"selftest {pid} {r['id']}: {r['status']}: {r['detail']}")
     nb = sum(1 for v in vs if v['kind'] == 'breaking')
-    print(f'selftest {pid}: {len(vs)} variants ({nb} breaking, '
-          f'{len(vs) - nb} benign): {n["ok"]} ok, {n["fail"]} failed, '
-          f'{n["stale"]} stale')
+    ns = sum(1 for v in vs if v.get('patch'))
+    print(f'selftest {pid}: {len(vs)} variants ({nb} breaking of which '
+          f'{ns} seeded by sub-agents, {len(vs) - nb} benign): '
+          f'{n["ok"]} ok, {n["fail"]} failed, {n["stale"]} stale')
     summary = dict(
-        variants=len(vs), breaking=nb, benign=len(vs) - nb, ok=n['ok'],
+        variants=len(vs), breaking=nb, seeded=ns, benign=len(vs) - nb,
+        ok=n['ok'],
         failed=n['fail'], stale=n['stale'],
         detected=[r['id'] for r, v in zip(results, vs)
                   if v['kind'] == 'breaking' and r['status'] == 'ok'],
